@@ -508,7 +508,7 @@ func runC14(r *Run) {
 		n := 0
 		for _, p := range paths {
 			ret := p[len(p)-1].Instrs[len(p[len(p)-1].Instrs)-1].(*ssa.Return)
-			if !isNilConstV(ret.Results[0]) {
+			if !isNilConstV(core.RetOp(ret, 0)) {
 				continue
 			}
 			n++
